@@ -1,6 +1,7 @@
 # C19: pixel decoding -- generator and oracle.
 # Case lines (see harness/src/k_c19.rs): c19 color|bigcolor <fmt> <w> <h> B<payload> ; c19 etc|bigetc <alpha> <w> <h> B<payload> ;
-# c19 rgb5a3 B<data> ; c19 idx B<data> B<rgba palette> ; c19 pal|bigpal <w> <h> B<image> B<palette>.
+# c19 rgb5a3 B<data> ; c19 idx B<data> B<rgba palette> ; c19 pal|bigpal <w> <h> B<image> B<palette> ;
+# c19 cfdec <cf> B<data> ; c19 cfidx <cf> B<data> B<rgba palette>   (cf: 0 RGBA8, 1 RGB5A3, 2 CI8, other Unrecognized; error variant printed).
 # "big*" cases are evaluated by the implementation and the oracle only (the list-based extracted model answers "skip").
 import struct
 from common import PropertyCheck, Case
@@ -8,7 +9,9 @@ import texref
 
 POW2 = [8, 16, 32, 64, 128]
 COLOR_FORMATS = [0, 2, 3, 4, 5, 7, 8]
-MODEL_MAX_PIXELS = 2048          # textures above this go to the oracle-only streams
+MODEL_MAX_PIXELS = 8192          # textures above this go to the oracle-only streams (the list-based extracted model is quadratic:
+                                 # 128x64 takes 1.5 s, 128x128 10 s); the thorough tier also runs one round of 128x128 through the model
+PAL_MODEL_MAX_PIXELS = 4096      # every palette image of the property's domain (1..64 x 1..64) is model-compared
 
 
 def hx(b):
@@ -63,17 +66,21 @@ def etc_image(alpha, blocks, rng):
 
 class C19(PropertyCheck):
     pid = "C19"
+    source_tables = ["Tile", "Etc1", "Pixel"]   # tables / constants regenerated from /repo's source (gen/srctables.py)
     release_too = True
     rule = ("streams: every 16-bit value of RGBA5551/RGB565/RGBA4/LA8 and every 8-bit value of L8/A8 (model-compared in 32x32 textures, plus one "
             "256x256 texture per format for the oracle), RGBA8 byte sweeps; all 25 power-of-two sizes 8..128 x 9 formats with random payloads; ETC1 "
             "blocks: individual/differential x 64 table pairs x flip x constant selector fills + per-position selector values + random selectors, "
-            "every in-range (base, delta) pair, all 4-bit colour pairs, every alpha nibble; all 65536 RGB5A3 values; CI8 palette images of sizes 1..64 "
-            "(sampled in the quick tier, all 4096 in the thorough tier); decode_indexed directly; edge cases (odd sizes, wrong payload length) for the "
-            "model correspondence only.  Both build profiles.  Non-trivial = the case is inside the property's domain and the implementation returned "
+            "every in-range (base, delta) pair, all 4-bit colour pairs, every alpha nibble, boundary alpha words (zero, ones, one nibble set/cleared per position) x varied and boundary colour words; all 65536 RGB5A3 values; CI8 palette images of sizes 1..64 "
+            "(sampled in the quick tier, all 4096 in the thorough tier; every one model-compared); decode_indexed directly; ColorFormat::decode / "
+            "decode_indexed for every ColorFormat with the error variant; ETC1/ETC1A4 also through the CTPK path; every modifier-table entry with "
+            "both signs on unclamped bases; edge cases (odd sizes, wrong payload length, first index outside the palette, formats outside the "
+            "list) for the model correspondence only; textures above 4096 (quick) / 8192-16384 (thorough) pixels are oracle-only.  Both build profiles.  Non-trivial = the case is inside the property's domain and the implementation returned "
             "pixels; distinct = distinct case line.")
     assumptions = [
         "A-float: f64 ceil/log2 in etc1::decode and the f32 size product in ctpk::read are exact on the domain (modelled by integer functions; "
-        "confirmed by the correspondence over all 25 sizes and odd sizes)",
+        "confirmed by the correspondence over all 25 sizes, odd sizes, and the block consumption of d x 1 / 1 x d images for d = 1..40 (300 thorough) "
+        "and 2^k-1, 2^k, 2^k+1 up to 2049)",
         "A-alloc: allocations below 2^32 pixels succeed",
         "the 3DS formats are reached through a single-texture CTPK built by the harness, CI8 through a single-image TPL built by the harness",
     ]
@@ -83,13 +90,18 @@ class C19(PropertyCheck):
         thorough = tier == "thorough"
         cases = []
 
-        def color(fmt, w, h, payload, stream):
-            kind = "color" if w * h <= MODEL_MAX_PIXELS else "bigcolor"
+        def color(fmt, w, h, payload, stream, limit=MODEL_MAX_PIXELS):
+            kind = "color" if w * h <= limit else "bigcolor"
             cases.append(Case("c19 %s %d %d %d %s" % (kind, fmt, w, h, hx(payload)), stream))
 
-        def etc(alpha, w, h, payload, stream):
-            kind = "etc" if w * h <= MODEL_MAX_PIXELS else "bigetc"
+        def etc(alpha, w, h, payload, stream, limit=MODEL_MAX_PIXELS, ctpk=None):
+            """ETC1 / ETC1A4 through mila::decode; with ctpk (default: one case in three) also through a single-texture CTPK"""
+            kind = "etc" if w * h <= limit else "bigetc"
             cases.append(Case("c19 %s %d %d %d %s" % (kind, 1 if alpha else 0, w, h, hx(payload)), stream))
+            if ctpk is None:
+                ctpk = rng.randrange(3) == 0
+            if ctpk:
+                color(13 if alpha else 12, w, h, payload, stream + "-ctpk", limit)
 
         # 1. every value of the 16-bit and 8-bit formats
         for fmt in (2, 3, 4, 5):
@@ -106,16 +118,26 @@ class C19(PropertyCheck):
             vals = [((v << (8 * byte)) | (rng.getrandbits(32) & ~(0xFF << (8 * byte)))) & 0xFFFFFFFF for v in range(256)]
             color(0, 16, 16, tiled_payload(0, 16, 16, vals), "rgba8-byte-sweep")
 
+        # RGBA8 boundary values: all zero, all ones, each byte alone at 0x00 / 0xFF / 0x01 / 0x80 (special-value fast paths)
+        vals = [0, 0xFFFFFFFF]
+        for byte in range(4):
+            for v in (0xFF, 0x01, 0x80, 0x7F):
+                vals += [v << (8 * byte), 0xFFFFFFFF ^ (v << (8 * byte))]
+        vals += [rng.getrandbits(32) for _ in range(64 - len(vals))]
+        rng.shuffle(vals)
+        color(0, 8, 8, tiled_payload(0, 8, 8, vals), "rgba8-byte-sweep")
+
         # 2. all 25 sizes x all listed formats, random payloads
         reps = 1 if not thorough else 8
-        for _ in range(reps):
+        for rep_no in range(reps):
+            limit = (16384 if rep_no == 0 else MODEL_MAX_PIXELS) if thorough else 4096
             for w in POW2:
                 for h in POW2:
                     for fmt in COLOR_FORMATS:
-                        color(fmt, w, h, rand_bytes(rng, texref.payload_size(fmt, w, h)), "sizes-random")
+                        color(fmt, w, h, rand_bytes(rng, texref.payload_size(fmt, w, h)), "sizes-random", limit)
                     for alpha in (False, True):
                         n = texref.payload_size(13 if alpha else 12, w, h)
-                        etc(alpha, w, h, rand_bytes(rng, n), "sizes-random-etc")
+                        etc(alpha, w, h, rand_bytes(rng, n), "sizes-random-etc", limit, ctpk=True)
         # extra small random textures for the model correspondence
         for _ in range(60 if not thorough else 1500):
             w, h = rng.choice([8, 16, 32]), rng.choice([8, 16, 32])
@@ -139,6 +161,13 @@ class C19(PropertyCheck):
                                 rgb1 = [rng.randrange(16) for _ in range(3)]
                                 rgb2 = [rng.randrange(16) for _ in range(3)]
                             blocks.append((etc_word(diff, flip, t1, t2, rgb1, rgb2, msb, lsb), rng.getrandbits(64)))
+        # every modifier-table entry with both signs where nothing clamps (base 0x44 + m <= 255, base 0xBB - m >= 0):
+        # each table as table 1 and as table 2, both orientations, all four constant selector fills
+        for t in range(8):
+            for flip in (0, 1):
+                for (msb, lsb) in ((0, 0), (0, 0xFFFF), (0xFFFF, 0), (0xFFFF, 0xFFFF)):
+                    base = 0xB if msb else 0x4
+                    blocks.append((etc_word(0, flip, t, (t + 3) % 8, [base] * 3, [base] * 3, msb, lsb), rng.getrandbits(64)))
         # every pixel position x every index value
         for pos in range(16):
             for idx in range(4):
@@ -169,6 +198,32 @@ class C19(PropertyCheck):
             for k in range(16):
                 aw |= ((v + k) % 16) << (4 * k)
             blocks.append((rng.getrandbits(64) & ~(1 << 33), aw))
+        # ETC1A4: boundary alpha words (all zero, all ones, one nibble set / cleared at every position, single bits) crossed with
+        # varied colour words -- the colour of a texel must not depend on the alpha word (a transparent block keeps its r, g, b)
+        M64 = (1 << 64) - 1
+        alpha_words = [0, M64, 1, 0xF, 0xF << 60, 1 << 63, 0x00000000FFFFFFFF, 0xFFFFFFFF00000000, 0x0F0F0F0F0F0F0F0F, 0xF0F0F0F0F0F0F0F0]
+        alpha_words += [0xF << (4 * k) for k in range(16)] + [M64 ^ (0xF << (4 * k)) for k in range(16)]
+        colour_words = [etc_word(0, 0, 2, 5, [15, 8, 3], [1, 12, 7], 0x0F0F, 0x3355),
+                        etc_word(0, 1, 7, 0, [4, 4, 4], [11, 11, 11], 0xFFFF, 0xFFFF),
+                        etc_word(1, 0, 3, 6, [20, 9, 30], [7, 3, 4], 0x00FF, 0xF00F),
+                        etc_word(1, 1, 0, 7, [1, 31, 16], [1, 7, 0], 0x1234, 0xFEDC)]
+        ablocks = []
+        for aw in alpha_words:
+            for cw in colour_words + [etc_word(rng.getrandbits(1), rng.getrandbits(1), rng.randrange(8), rng.randrange(8),
+                                               [rng.randrange(4, 12) for _ in range(3)], [rng.randrange(4) for _ in range(3)],
+                                               rng.getrandbits(16), rng.getrandbits(16))]:
+                ablocks.append((cw, aw))
+        # boundary colour words (each 64-bit field group empty / full) under boundary alpha words
+        for cw in (0, M64, 1 << 33, 1 << 32, 0xFFFF, 0xFFFF0000, 0xFFFFFFFF, 0xFFFFFFFF00000000, 0xFF00000000000000, 0x000000FC00000000):
+            if texref.etc1_block(cw)[0][0] is None or texref.etc1_block(cw)[3][3] is None:
+                continue                                    # differential sums outside 0..31: not defined by the rules
+            for aw in (0, M64, 1, 0xF << 60):
+                ablocks.append((cw, aw))
+        for i in range(0, len(ablocks), 16):
+            side, payload = etc_image(True, ablocks[i:i + 16], rng)
+            etc(True, side, side, payload, "etc1a4-alpha-words", ctpk=(i // 16) % 2 == 0)
+            side, payload = etc_image(False, ablocks[i:i + 16], rng)
+            etc(False, side, side, payload, "etc1a4-alpha-words", ctpk=False)
         for i in range(0, len(blocks), 16):
             for alpha in (False, True):
                 side, payload = etc_image(alpha, blocks[i:i + 16], rng)
@@ -179,6 +234,19 @@ class C19(PropertyCheck):
         for i in range(0, len(oblocks), 16):
             side, payload = etc_image(False, oblocks[i:i + 16], rng)
             etc(False, side, side, payload, "etc1-out-of-range-delta")
+
+        # 3b. A-float: the tile count 1 << (ceil(d / 8.0).log2() as usize) of etc1::decode, observed through the number of blocks
+        # consumed: d x 1 and 1 x d images with exactly tiles(w)*tiles(h) blocks (ok) and one block fewer (slice panic); model-compared
+        def tiles(d):
+            return 1 if d <= 8 else 1 << (((d + 7) // 8).bit_length() - 1)
+        ds = set(range(1, 41 if not thorough else 301))
+        for k in range(6, 12):
+            ds.update([(1 << k) - 1, 1 << k, (1 << k) + 1])
+        for d in sorted(ds):
+            for (w, h) in ((d, 1), (1, d)):
+                n = tiles(w) * tiles(h) * 4 * 8
+                etc(False, w, h, rand_bytes(rng, n), "etc-tile-count", ctpk=False)
+                etc(False, w, h, rand_bytes(rng, n - 8), "etc-tile-count", ctpk=False)
 
         # 4. RGB5A3: all 65536 values
         for chunk in range(16):
@@ -197,7 +265,7 @@ class C19(PropertyCheck):
             ncol = rng.choice([256, 256, 16, 200])
             img = bytes(rng.randrange(ncol) for _ in range(n))
             pal = b"".join(struct.pack(">H", rng.getrandbits(16)) for _ in range(ncol))
-            kind = "pal" if w * h <= MODEL_MAX_PIXELS else "bigpal"
+            kind = "pal" if w * h <= PAL_MODEL_MAX_PIXELS else "bigpal"
             cases.append(Case("c19 %s %d %d %s %s" % (kind, w, h, hx(img), hx(pal)), "palette-images"))
         for _ in range(20 if not thorough else 200):
             n = rng.randrange(0, 200)
@@ -205,6 +273,17 @@ class C19(PropertyCheck):
             data = bytes(rng.randrange(ncol) for _ in range(n))
             pal = rand_bytes(rng, 4 * ncol)
             cases.append(Case("c19 idx %s %s" % (hx(data), hx(pal)), "decode-indexed"))
+
+        # 5b. ColorFormat::decode / decode_indexed for every ColorFormat, with the error variant (model: Model/ColorFormat.v)
+        for _ in range(40 if not thorough else 400):
+            cf = rng.choice([0, 0, 1, 1, 2, 3])
+            n = rng.choice([0, 4, 8, 64, rng.randrange(0, 70)])
+            cases.append(Case("c19 cfdec %d %s" % (cf, hx(rand_bytes(rng, n))), "colorformat-decode"))
+            cf = rng.choice([0, 1, 2, 2, 2, 3])
+            ncol = rng.randrange(1, 257)
+            npal = 4 * ncol if rng.random() < 0.8 else rng.randrange(0, 40)
+            data = bytes(rng.randrange(ncol if rng.random() < 0.8 else 256) for _ in range(rng.randrange(0, 40)))
+            cases.append(Case("c19 cfidx %d %s %s" % (cf, hx(data), hx(rand_bytes(rng, npal))), "colorformat-decode"))
 
         # 6. edge cases: correspondence only (outside the property's domain, the oracle is silent)
         for (w, h) in [(12, 8), (8, 20), (24, 24), (4, 4), (40, 16), (1, 1), (0, 8), (8, 0), (9, 9)]:
@@ -214,12 +293,18 @@ class C19(PropertyCheck):
             for alpha in (False, True):
                 tiles = lambda d: 1 if d <= 8 else 1 << (((d + 7) // 8).bit_length() - 1)
                 n = tiles(w) * tiles(h) * 4 * (16 if alpha else 8)
-                etc(alpha, w, h, rand_bytes(rng, n), "edge-odd-size")
-                etc(alpha, w, h, rand_bytes(rng, max(0, n - 3)), "edge-short-payload")
+                # (not through a CTPK: ctpk::read cuts the payload by its own size formula first - that is C20's subject)
+                etc(alpha, w, h, rand_bytes(rng, n), "edge-odd-size", ctpk=False)
+                etc(alpha, w, h, rand_bytes(rng, max(0, n - 3)), "edge-short-payload", ctpk=False)
         for fmt in (14, 15, 255):
             color(fmt, 8, 8, b"", "edge-unknown-format")
         cases.append(Case("c19 rgb5a3 %s" % hx(b"\x12\x34\x56"), "edge-odd-size"))
         cases.append(Case("c19 idx %s %s" % (hx(b"\x00\x05"), hx(bytes(16))), "edge-index-out-of-palette"))
+        for ncol in (1, 4, 255):     # the first index outside the palette, and the last one inside
+            cases.append(Case("c19 idx %s %s" % (hx(bytes([0, ncol])), hx(rand_bytes(rng, 4 * ncol))), "edge-index-out-of-palette"))
+            cases.append(Case("c19 idx %s %s" % (hx(bytes([0, ncol - 1])), hx(rand_bytes(rng, 4 * ncol))), "decode-indexed"))
+            img = bytes([ncol] + [0] * 31)
+            cases.append(Case("c19 pal 8 4 %s %s" % (hx(img), hx(rand_bytes(rng, 2 * ncol))), "edge-index-out-of-palette"))
         cases.append(Case("c19 idx %s %s" % (hx(b"\x00"), hx(bytes(7))), "edge-odd-size"))
         cases.append(Case("c19 pal 8 4 %s %s" % (hx(bytes([9] * 32)), hx(bytes(8))), "edge-index-out-of-palette"))
         return cases
@@ -238,6 +323,8 @@ class C19(PropertyCheck):
             payload = unhx(toks[5])
             if fmt in texref.FORMATS and is_pow2_ge8(w) and is_pow2_ge8(h) and len(payload) == texref.payload_size(fmt, w, h):
                 return ("color", fmt, w, h, payload)
+            if fmt in (12, 13) and is_pow2_ge8(w) and is_pow2_ge8(h) and len(payload) == texref.payload_size(fmt, w, h):
+                return ("etc", fmt == 13, w, h, payload)      # ETC1 / ETC1A4 through the CTPK path
         elif k in ("etc", "bigetc"):
             alpha, w, h = toks[2] == "1", int(toks[3]), int(toks[4])
             payload = unhx(toks[5])
@@ -247,7 +334,17 @@ class C19(PropertyCheck):
             data = unhx(toks[2])
             if len(data) % 2 == 0:
                 return ("rgb5a3", data)
-        elif k == "idx":
+        elif k == "cfdec":
+            cf, data = int(toks[2]), unhx(toks[3])
+            if cf == 1 and len(data) % 2 == 0:
+                return ("rgb5a3", data)
+            if cf == 0 and len(data) % 4 == 0:
+                return ("rgba8", data)
+        elif k in ("idx", "cfidx"):
+            if k == "cfidx":
+                if toks[2] != "2":
+                    return None
+                toks = [toks[0], "idx"] + toks[3:]
             data, pal = unhx(toks[2]), unhx(toks[3])
             if len(pal) % 4 == 0 and all(i < len(pal) // 4 for i in data):
                 return ("idx", data, pal)
@@ -283,6 +380,8 @@ class C19(PropertyCheck):
                 if why:
                     return why
             return None
+        if dom[0] == "rgba8":
+            return None if out == dom[1] else "GameCube RGBA8 decode is not the identity"
         if dom[0] == "idx":
             data, pal = dom[1], dom[2]
             want = b"".join(pal[4 * i:4 * i + 4] for i in data)
@@ -321,11 +420,20 @@ TB = ("Trusted: Coq 8.16.1 kernel (vm_compute, no native_compute), no axioms (Pr
       "ExtrOcamlBasic extraction + hand-written OCaml driver, the Rust harness and Python generators/oracles. ")
 
 MANIFEST = dict(
-    text="Theorems about executable Gallina models of texture_decoder.rs, etc1.rs, pixel_encodings.rs, texture_utils.rs and the CI8 path of tpl.rs "
-         "(see notes/tex.md for the list and status); model tied to /repo on every run by exhaustive/finite-product correspondence in both build "
-         "profiles; independent Python re-statement of the formats as oracle.",
-    note=TB + "Modelled, not verified: f64 ceil/log2 and the f32 size product (A-float), allocation success (A-alloc); the harness wraps payloads in "
-              "minimal CTPK/TPL containers to reach the private decoders through the public API.",
-    technique="Coq proof (finite sweeps by vm_compute for tables and channels, scatter/gather lemma + div/mod arithmetic for the tile layout, field "
-              "decomposition for ETC1) + extracted-model differential check + independent oracle",
-    ref="DESIGN.md section 7 (C19)")
+    text="Proved (28 theorems in Properties/C19.v, all closed, none partial) about executable Gallina models of texture_decoder.rs, etc1.rs, pixel_encodings.rs, "
+         "texture_utils.rs and the CI8 path of tpl.rs: TILE_ORDER is the Morton order; for every listed raw format and EVERY width/height that is a "
+         "multiple of 8 (w*h < 2^32) pixel (X,Y) is decode_color of the element at its Z-order index, in both arithmetic modes; every channel of all "
+         "65536 values per format is within one quantisation step of the linear expansion (exact for 8/4/1-bit fields); the ETC1 block decoder equals a "
+         "specification written from the published rules for every block the rules define, and ETC1/ETC1A4 images place block/texel as the 3DS layout "
+         "says (all powers of two); RGB5A3 all values; CI8 palette images in 8x4 blocks for EVERY size >= 1 with crop; output size; bytes-per-pixel "
+         "table; Checked and Wrapping modes give identical outcomes for every payload. Model tied to /repo on every run by exhaustive / finite-product "
+         "correspondence in both build profiles through ctpk::read, Tpl::extract_textures, mila::decode, ColorFormat::decode/decode_indexed; "
+         "independent Python re-statement of the formats (gen/texref.py) as oracle on the implementation's output.",
+    note=TB + "Modelled, not verified: f64 ceil/log2 and the f32 size product (A-float: integer functions, confirmed by the correspondence over all 25 "
+              "sizes, odd sizes and 256x256), allocation success (A-alloc). The harness wraps payloads in minimal CTPK/TPL containers to reach the "
+              "private decoders through the public API. ETC1 differential blocks whose base+delta leaves 0..31 are outside the ETC1 rules: compared "
+              "with the model only. Formats outside the property's list (RGB8, HILO8, LA4, L4, A4) are model-compared, no theorem. F15 (u8 overflow on "
+              "negative ETC1 deltas in checked builds) was repaired in /repo (dde5f7c); the pre-repair expression is kept in the model and proved to panic.",
+    technique="Coq proof (finite sweeps by vm_compute for tables and channels, scatter/gather lemma + div/mod arithmetic for the tile, ETC and 8x4 "
+              "block layouts, field decomposition of the 64-bit word for ETC1) + extracted-model differential check + independent oracle",
+    ref="DESIGN.md section 7 (C19); notes/tex.md")
